@@ -21,6 +21,7 @@ static void run(unsigned pm, int k, const vector<pair<int, int>> &targets, const
     string desc = "pins {"; for (int i = 0; i < 6; i++) if (pm >> i & 1) desc += DEFS[i].name + string(" "); desc += mcx::fmt("} %d connector(s) to", k); for (int i = 0; i < k; i++) desc += mcx::fmt(" (%d,%d)", targets[i].first, targets[i].second); desc += " " + cfg_str(c);
     ctx.announce(desc); ctx.count("evaluations");
     vector<string> kc; if (c.inside == 0 && c.dirMode != 2) kc.push_back("pin_on_boundary");
+    if (c.cps && c.toJunction) kc.push_back("checkpoints_on_junction_connector");
     char whyBuf[100] = "", obsBuf[300] = ""; bool aborted = false; char abortWhat[600] = ""; int nTrans = 0; bool nontriv = false;
     if (c.heap) mcx::heap_begin(c.heap, mcx::REUSE_NONE, 0);
     {
@@ -63,9 +64,9 @@ static void run(unsigned pm, int k, const vector<pair<int, int>> &targets, const
                         if (!okd && why.empty()) { why = "leaves pin in a forbidden direction"; obs = mcx::fmt("conn %zu dirs=%u route ", ci, (unsigned)dd) + rs; } }
                     if (hit->isExclusive()) used.insert({e.x, e.y});
                 }
-                Point want(targets[ci].first * S, targets[ci].second * S);
-                if (js[ci]) want = js[ci]->position();
-                if ((fabs(far.x - want.x) > 1e-9 || fabs(far.y - want.y) > 1e-9) && why.empty()) { why = c.toJunction ? "junction end not at the junction position" : "free end moved"; obs = rs; }
+                Point want(targets[ci].first * S, targets[ci].second * S), want2 = want;
+                if (js[ci]) { want = js[ci]->position(); want2 = js[ci]->recommendedPosition(); }   // hyperedge improvement "moves" junctions by recommending a position
+                if ((fabs(far.x - want.x) > 1e-9 || fabs(far.y - want.y) > 1e-9) && (fabs(far.x - want2.x) > 1e-9 || fabs(far.y - want2.y) > 1e-9) && why.empty()) { why = c.toJunction ? "junction end not at the junction position" : "free end moved"; obs = rs; }
                 // checkpoints in order
                 if (!cpl[ci].empty()) { size_t seg = 1; double tpos = 0; bool ok = true;
                     for (auto &cp : cpl[ci]) { bool found = false; for (size_t q = seg; q < d.size() && !found; q++) if (onSeg(d.ps[q - 1], d.ps[q], cp)) { double L = hypot(d.ps[q].x - d.ps[q - 1].x, d.ps[q].y - d.ps[q - 1].y), t = L > 0 ? hypot(cp.x - d.ps[q - 1].x, cp.y - d.ps[q - 1].y) / L : 0; if (q > seg || t >= tpos - 1e-9) { found = true; seg = q; tpos = t; } } if (!found) ok = false; }
